@@ -318,6 +318,8 @@ type c01Replay struct {
 	V      c01Variant `json:"v"`
 	// cross-variant disagreement: second variant
 	V2 *c01Variant `json:"v2,omitempty"`
+	// reader-as-environment case (c01_reader.go): the script of answers
+	Reader string `json:"reader_script,omitempty"`
 }
 
 func c01Input(c *Ctx, in []byte, vs []c01Variant, wc *watchCase, measure bool) (accepted bool) {
@@ -416,6 +418,7 @@ func init() {
 				c01Behind = nil
 			})
 			c.Watch(nil)
+			c01ReaderSweep(c)
 			if c.Expired() {
 				c.Res.Exhaustive = false
 			}
@@ -433,6 +436,12 @@ func init() {
 				c.Fail("%v", err)
 			}
 			b, _ := hex.DecodeString(r.Hex)
+			if r.Reader != "" {
+				if key, detail := c01ReaderCase(r.Reader, b, r.V.Used); key != "" {
+					c.Violation(key, detail, r)
+				}
+				return
+			}
 			if r.Prev != "" {
 				c01Prev, _ = hex.DecodeString(r.Prev)
 			}
